@@ -3,6 +3,7 @@
 pub mod c01;
 pub mod c02;
 pub mod c03;
+pub mod c04;
 pub mod common;
 pub mod smoke;
 pub mod txw;
@@ -13,6 +14,7 @@ pub fn run(what: &str, tier: &str, _rest: &[String]) -> i32 {
         "C01" => c01::run(tier),
         "C02" => c02::run(tier),
         "C03" => c03::run(tier),
+        "C04" => c04::run(tier),
         _ => {
             eprintln!("unknown check {} ({})", what, tier);
             64
